@@ -20,7 +20,11 @@ R5 hand-over in `_synchronize_workflows`: in the recovering branch the *running*
    workflow's port gets a PROPAGATE rule towards the new workflow's port keyed by the job token's
    tag and the job's outputs are promoted to roots of the new token graph; in the other branch `_update_request` (which marks the job ROLLBACK after counting) is
    awaited before the request records the new workflow, on every path; `RecoveryRequest.workflow`
-   is written nowhere else.  `_get_recovery_port`: each returned value is read through temporaries (flow-sensitive
+   is written nowhere else.  Either branch may delegate to a same-module function / method (split method, refactoring
+   B20-3): the resolved call is followed (2 levels for the hand-over, 1 for the rollback), the request, its running
+   workflow and the new workflow being the never-rebound parameters the call site binds to them; a delegate of the
+   rollback branch may write `workflow` / call `_update_request` as long as `_synchronize_workflows` is its only caller.
+   `_get_recovery_port`: each returned value is read through temporaries (flow-sensitive
    reaching definitions: `tmp = <expr>; return tmp`), the facts are those known where <expr> is evaluated.
 R6 (added) every coroutine call on the synchronisation path is awaited.
 R7 (added, seeded change C19/1) the answer to `is this job already being recovered` is obtained under the request
@@ -532,6 +536,122 @@ def _lock_scopes(g, acq):
 # --------------------------------------------------------------------------- R5
 
 
+def _handover_contexts(p, f, in_branch, is_req, is_running, is_new, depth=2, seen=frozenset(), site=None):
+    """[(function, in_branch, is_req, is_running, is_new, (caller, call) | None)]: `f` itself and the same-module functions it delegates to
+    from inside the branch (`self._helper(..)` / `_helper(..)` resolved to one definition; `depth` levels).  The
+    predicates recognise, in each function, the expressions denoting the request of the job, the recovery workflow it
+    is running in, and the new recovery workflow: in a helper these are the parameters (never rebound) that the call
+    site binds to such expressions."""
+    out = [(f, in_branch, is_req, is_running, is_new, site)]
+    if depth <= 0:
+        return out
+    for c in f.calls():
+        fn = c.func
+        if not (isinstance(fn, ast.Name) or (isinstance(fn, ast.Attribute) and isinstance(fn.value, ast.Name) and fn.value.id in ("self", "cls"))):
+            continue
+        qs = p.resolve_call(f, c, fanout=False)
+        h = p.functions.get(qs[0]) if len(qs) == 1 else None
+        if h is None or h is f or h.module is not f.module or h.qualname in seen or not in_branch(c):
+            continue
+        b = bind_args(h.node, c, bound=h.cls is not None)
+        if b is None:
+            continue
+
+        def bound_to(pred, b=b):
+            return {pn for pn, a in b.items() if all(pred(strip(o)) for o in (origins(f, a) or [a]))}
+
+        def param_in(names, h=h):
+            return lambda x: isinstance(x, ast.Name) and x.id in names and all(d.kind == "param" for d in defs_of(h, x.id))
+
+        req2, run_p, new2 = param_in(bound_to(is_req)), param_in(bound_to(is_running)), param_in(bound_to(is_new))
+
+        def run2(x, req2=req2, run_p=run_p):
+            return run_p(x) or (isinstance(x, ast.Attribute) and x.attr == "workflow" and req2(x.value))
+
+        out += _handover_contexts(p, h, lambda c_: True, req2, run2, new2, depth - 1, seen | {f.qualname}, (f, c))
+    return out
+
+
+def _handover(p, h, in_branch, is_req, is_running, is_new, _site=None):
+    """The hand-over obligations of R5 evaluated on the statements of `h` that lie in the recovering branch."""
+    g = h.cfg
+    add_inter = p.func("streamflow.workflow.port.InterWorkflowPort.add_inter_port")
+    job_token = lambda n: isinstance(n, ast.Call) and resolves_to(p, h, n, ["streamflow.workflow.utils.get_job_token"], attr_fallback=False)  # noqa: E731
+    rules = [c for c in h.calls() if isinstance(c.func, ast.Attribute) and c.func.attr == "add_inter_port"]
+    in_yes = [c for c in rules if in_branch(c)]
+    ok, msg = False, "no add_inter_port in the recovering branch"
+    for c in in_yes:
+        b = bind_args(add_inter.node, c) or {}
+        act = b.get("boundary_action")
+        acts = [strip(o) for o in origins(h, act)] if act is not None else []
+        is_prop = len(acts) == 1 and isinstance(acts[0], ast.Attribute) and acts[0].attr == "PROPAGATE" and p.resolve_expr(h.module, acts[0].value) == "streamflow.workflow.port.BoundaryAction"
+        on_running = any(is_running(strip(o)) for owner in _ports_owner(h, c.func.value) for o in origins(h, owner))
+        port = b.get("port")
+        to_new = port is not None and mentions(
+            h, port, lambda n: isinstance(n, ast.Call) and resolves_to(p, h, n, [f"{FM}._get_recovery_port"], attr_fallback=False)
+            and any(is_new(a) for a in n.args[-1:]) or (isinstance(n, ast.Attribute) and n.attr == "ports" and is_new(n.value)))
+        tags = b.get("boundary_tags")
+        keyed = False
+        for o in origins(h, tags) if tags is not None else []:
+            o = strip(o)
+            if isinstance(o, (ast.List, ast.Tuple)) and len(o.elts) == 1:
+                e = strip(o.elts[0])
+                if isinstance(e, ast.Attribute) and e.attr == "tag":
+                    keyed = mentions(h, e.value, job_token)
+        ok = is_prop and on_running and to_new and keyed
+        msg = f"`{unparse(c)[:120]}`: PROPAGATE={is_prop}, installed on the running recovery workflow={on_running}, towards the new workflow's port={to_new}, keyed by the job token's tag={keyed}"
+        if ok:
+            break
+    # the outputs the running job will deliver become roots of the new recovery (nothing above them is re-run)
+    moves = [c for c in h.calls() if resolves_to(p, h, c, ["streamflow.recovery.utils.GraphMapper.move_token_to_root"], attr_fallback=False)]
+    okm = False
+    for c in moves:
+        lp = next((a for a in ancestors(c) if isinstance(a, ast.For)), None)
+        if lp is None or not in_branch(c):
+            continue
+        succ_of_job = mentions(h, lp.iter, lambda n: isinstance(n, ast.Call) and isinstance(n.func, ast.Attribute) and n.func.attr == "successors"
+                               and mentions(h, n, job_token), depth=1)
+        okm = okm or (succ_of_job and isinstance(lp.target, ast.Name) and bool(c.args) and isinstance(c.args[0], ast.Name) and c.args[0].id == lp.target.id)
+    # the promoted tokens are the ones handed over
+    acc = False
+    for c in in_yes:
+        lp2 = next((a for a in ancestors(c) if isinstance(a, ast.For)), None)
+        names2 = {n.id for n in ast.walk(lp2.iter) if isinstance(n, ast.Name)} if lp2 is not None else set()
+        for m_ in moves:
+            lp1 = next((a for a in ancestors(m_) if isinstance(a, ast.For)), None)
+            if lp1 is None or not m_.args or not isinstance(m_.args[0], ast.Name):
+                continue
+            for a in h.calls():
+                if isinstance(a.func, ast.Attribute) and a.func.attr in ("add", "append") and isinstance(a.func.value, ast.Name) and a.func.value.id in names2 \
+                        and a.args and isinstance(a.args[0], ast.Name) and a.args[0].id == m_.args[0].id and any(x is lp1 for x in ancestors(a)):
+                    gi, ai = g.ids_of(lp1), g.node_containing(a)
+                    body = [b for i in gi for b in succ(g, i, "t")]
+                    if not any(g.path(b, gi, avoid=ai) for b in body if b not in ai):
+                        acc = True
+    okm = okm and acc
+    # successors are read only when the job token is part of the graph
+    unguarded = False
+    for c in h.calls():
+        if isinstance(c.func, ast.Attribute) and c.func.attr == "successors" and in_branch(c):
+            fx = expr_facts(c) + [x for i in g.node_containing(c) for x in path_facts(g, i)]
+            guard = [v for e, v in fx if isinstance(e, ast.Call) and isinstance(e.func, ast.Attribute) and e.func.attr == "contains"
+                     and c.args and e.args and unparse(e.args[0]) == unparse(c.args[0])]
+            if guard and not all(guard):
+                unguarded = True
+    return {"func": h, "ok": ok, "msg": msg, "in_yes": in_yes, "okm": okm, "moves": moves, "unguarded": unguarded}
+
+
+def _rollback_sites(p, h, is_req, is_new):
+    """(`_update_request` calls of `h`, their CFG nodes, the statements recording a workflow in the request, every one
+    of them records the new recovery workflow)."""
+    g = h.cfg
+    upd = [c for c in h.calls() if resolves_to(p, h, c, [f"{RFM}._update_request"], attr_fallback=False)]
+    uids = [i for c in upd for i in g.node_containing(c)]
+    recs = [n for n in g.nodes.values() if n.kind == "stmt" and isinstance(n.ast, ast.Assign) and any(
+        isinstance(x, ast.Attribute) and x.attr == "workflow" and is_req(x.value) for x in n.ast.targets)]
+    return upd, uids, recs, all(is_new(strip(n.ast.value)) for n in recs)
+
+
 def r5(ctx):
     p = ctx.prog
     f = p.func(f"{RFM}._synchronize_workflows")
@@ -547,74 +667,34 @@ def r5(ctx):
     heads = g.ids_of(loop)
     wfp = next((a for a in f.params if p.ann_to_class(f.module, f.param_annotation(a)) == "streamflow.core.workflow.Workflow"), None)
     ctx.require(wfp is not None, "C19.R5: _synchronize_workflows has no Workflow parameter")
-    # recovering branch
-    add_inter = p.func("streamflow.workflow.port.InterWorkflowPort.add_inter_port")
-    rules = [c for c in f.calls() if isinstance(c.func, ast.Attribute) and c.func.attr == "add_inter_port"]
-    in_yes = [c for c in rules if all(i in yes_reg and i not in no_reg for i in g.node_containing(c))]
-    ok, msg = False, "no add_inter_port in the recovering branch"
-    for c in in_yes:
-        b = bind_args(add_inter.node, c) or {}
-        act = b.get("boundary_action")
-        acts = [strip(o) for o in origins(f, act)] if act is not None else []
-        is_prop = len(acts) == 1 and isinstance(acts[0], ast.Attribute) and acts[0].attr == "PROPAGATE" and p.resolve_expr(f.module, acts[0].value) == "streamflow.workflow.port.BoundaryAction"
-        on_running = any(
-            isinstance(o, ast.Attribute) and o.attr == "workflow" and isinstance(o.value, ast.Name) and o.value.id == req
-            for owner in _ports_owner(f, c.func.value) for o in [strip(x) for x in origins(f, owner)])
-        port = b.get("port")
-        to_new = port is not None and mentions(
-            f, port, lambda n: isinstance(n, ast.Call) and resolves_to(p, f, n, [f"{FM}._get_recovery_port"], attr_fallback=False)
-            and any(isinstance(a, ast.Name) and a.id == wfp for a in n.args[-1:]) or (isinstance(n, ast.Attribute) and n.attr == "ports" and isinstance(n.value, ast.Name) and n.value.id == wfp))
-        tags = b.get("boundary_tags")
-        keyed = False
-        for o in origins(f, tags) if tags is not None else []:
-            o = strip(o)
-            if isinstance(o, (ast.List, ast.Tuple)) and len(o.elts) == 1:
-                e = strip(o.elts[0])
-                if isinstance(e, ast.Attribute) and e.attr == "tag":
-                    keyed = mentions(f, e.value, lambda n: isinstance(n, ast.Call) and resolves_to(p, f, n, ["streamflow.workflow.utils.get_job_token"], attr_fallback=False))
-        ok = is_prop and on_running and to_new and keyed
-        msg = f"`{unparse(c)[:120]}`: PROPAGATE={is_prop}, installed on the running recovery workflow={on_running}, towards the new workflow's port={to_new}, keyed by the job token's tag={keyed}"
-        if ok:
-            break
-    ctx.ob("R5", "a job already being recovered forwards its outputs to the new recovery workflow (PROPAGATE keyed by the job token's tag)", ok, func=f,
-           node=(in_yes[0] if in_yes else t.ast), instance="handover:propagate", message=msg)
-    # the outputs the running job will deliver become roots of the new recovery (nothing above them is re-run)
-    moves = [c for c in f.calls() if resolves_to(p, f, c, ["streamflow.recovery.utils.GraphMapper.move_token_to_root"], attr_fallback=False)]
-    okm = False
-    for c in moves:
-        lp = next((a for a in ancestors(c) if isinstance(a, ast.For)), None)
-        if lp is None or not all(i in yes_reg and i not in no_reg for i in g.node_containing(c)):
-            continue
-        succ_of_job = mentions(f, lp.iter, lambda n: isinstance(n, ast.Call) and isinstance(n.func, ast.Attribute) and n.func.attr == "successors"
-                               and mentions(f, n, lambda m: isinstance(m, ast.Call) and resolves_to(p, f, m, ["streamflow.workflow.utils.get_job_token"], attr_fallback=False)), depth=1)
-        okm = okm or (succ_of_job and isinstance(lp.target, ast.Name) and c.args and isinstance(c.args[0], ast.Name) and c.args[0].id == lp.target.id)
-    # the promoted tokens are the ones handed over
-    acc = False
-    for c in in_yes:
-        lp2 = next((a for a in ancestors(c) if isinstance(a, ast.For)), None)
-        names2 = {n.id for n in ast.walk(lp2.iter) if isinstance(n, ast.Name)} if lp2 is not None else set()
-        for m_ in moves:
-            lp1 = next((a for a in ancestors(m_) if isinstance(a, ast.For)), None)
-            if lp1 is None or not m_.args or not isinstance(m_.args[0], ast.Name):
-                continue
-            for a in f.calls():
-                if isinstance(a.func, ast.Attribute) and a.func.attr in ("add", "append") and isinstance(a.func.value, ast.Name) and a.func.value.id in names2 \
-                        and a.args and isinstance(a.args[0], ast.Name) and a.args[0].id == m_.args[0].id and any(x is lp1 for x in ancestors(a)):
-                    gi, ai = g.ids_of(lp1), g.node_containing(a)
-                    body = [b for i in gi for b in succ(g, i, "t")]
-                    if not any(g.path(b, gi, avoid=ai) for b in body if b not in ai):
-                        acc = True
-    okm = okm and acc
-    # successors are read only when the job token is part of the graph
-    for c in f.calls():
-        if isinstance(c.func, ast.Attribute) and c.func.attr == "successors" and all(i in yes_reg for i in g.node_containing(c)):
-            fx = expr_facts(c) + [x for i in g.node_containing(c) for x in path_facts(g, i)]
-            guard = [v for e, v in fx if isinstance(e, ast.Call) and isinstance(e.func, ast.Attribute) and e.func.attr == "contains"
-                     and c.args and e.args and unparse(e.args[0]) == unparse(c.args[0])]
-            if guard and not all(guard):
-                okm = False
-    ctx.ob("R5", "outputs of a job that is already being recovered are moved to the roots of the new token graph", okm, func=f,
-           node=(moves[0] if moves else t.ast), instance="handover:roots",
+    # recovering branch: evaluated where the hand-over is written - in the branch itself or in a method / function the
+    # branch delegates to (split method, refactoring B20-3: the resolved call is followed, the request / the running
+    # workflow / the new workflow being the parameters bound to them)
+    def in_yes_only(c):
+        ids = g.node_containing(c)
+        return bool(ids) and all(i in yes_reg and i not in no_reg for i in ids)
+
+    def in_no_only(c):
+        ids = g.node_containing(c)
+        return bool(ids) and all(i in no_reg and i not in yes_reg for i in ids)
+
+    def the_req(x):
+        return isinstance(x, ast.Name) and x.id == req
+
+    def the_running(x):
+        return isinstance(x, ast.Attribute) and x.attr == "workflow" and the_req(x.value)
+
+    def the_new(x):
+        return isinstance(x, ast.Name) and x.id == wfp
+
+    results = [_handover(p, *cx) for cx in _handover_contexts(p, f, in_yes_only, the_req, the_running, the_new)]
+    best = next((r for r in results if r["ok"]), None) or next((r for r in results if r["in_yes"]), None) or results[0]
+    ctx.ob("R5", "a job already being recovered forwards its outputs to the new recovery workflow (PROPAGATE keyed by the job token's tag)", best["ok"], func=best["func"],
+           node=(best["in_yes"][0] if best["in_yes"] else t.ast), instance="handover:propagate", message=best["msg"])
+    bestm = next((r for r in results if r["okm"]), None) or next((r for r in results if r["moves"]), None) or results[0]
+    okm = bestm["okm"] and not any(r["unguarded"] for r in results)
+    ctx.ob("R5", "outputs of a job that is already being recovered are moved to the roots of the new token graph", okm, func=bestm["func"],
+           node=(bestm["moves"][0] if bestm["moves"] else t.ast), instance="handover:roots",
            message="the successors of a recovering job's token are not promoted with move_token_to_root: their producers are re-executed by both recoveries")
     # _get_recovery_port: the new workflow's port with the name of the port holding the token; created only when
     # it is missing or not an inter-workflow port
@@ -663,24 +743,48 @@ def r5(ctx):
         why.append("both the `existing port` and the `create port` outcome are required")
     ctx.ob("R5", "_get_recovery_port returns the new workflow's inter-workflow port of that name, creating it only when missing", okg, func=h, node=h.node,
            instance="handover:port", message="; ".join(why))
-    # other branch: update then record
-    upd = [c for c in f.calls() if resolves_to(p, f, c, [f"{RFM}._update_request"], attr_fallback=False)]
-    uids = [i for c in upd for i in g.node_containing(c)]
-    recs = [n for n in g.nodes.values() if n.kind == "stmt" and isinstance(n.ast, ast.Assign) and any(
-        isinstance(x, ast.Attribute) and x.attr == "workflow" and isinstance(x.value, ast.Name) and x.value.id == req for x in n.ast.targets)]
+    # other branch: update then record - written in the branch, or in a same-module function the branch delegates to
+    # (the call site then stands for what the function does on every normal path)
+    upd, uids, recs, ok_val = _rollback_sites(p, f, the_req, the_new)
     rids = [n.id for n in recs]
-    ok_val = bool(recs) and all(isinstance(strip(n.ast.value), ast.Name) and strip(n.ast.value).id == wfp for n in recs)
-    ok_branch = bool(rids) and all(i in no_reg and i not in yes_reg for i in rids)
-    ok_order = bool(uids) and all(g.dominates(uids, i) for i in rids) and all(u in no_reg for u in uids)
+    u_sites, r_sites, must_r, need_outer = list(uids), list(rids), list(rids), []
+    any_recs = bool(recs)
+    delegates = []
+    for h_, _ib, rq_, _run, nw_, site in _handover_contexts(p, f, in_no_only, the_req, the_running, the_new, depth=1)[1:]:
+        hu, huids, hrecs, hval = _rollback_sites(p, h_, rq_, nw_)
+        if not hu and not hrecs:
+            continue
+        gh_ = h_.cfg
+        sids = g.node_containing(site[1])
+        if h_.is_async and not is_awaited(site[1]):
+            continue  # (reported by R6: the coroutine never runs)
+        delegates.append(h_.qualname)
+        if hu and gh_.escape(gh_.entry, huids) is None:
+            u_sites += sids
+        if hrecs:
+            any_recs = True
+            ok_val = ok_val and hval
+            hr = [n.id for n in hrecs]
+            r_sites += sids
+            if gh_.escape(gh_.entry, hr) is None:
+                must_r += sids
+            if not (bool(huids) and all(gh_.dominates(huids, i) for i in hr)):
+                need_outer.append(sids)
+    ok_val = any_recs and ok_val
+    ok_branch = bool(r_sites) and all(i in no_reg and i not in yes_reg for i in r_sites)
+    ok_order = bool(u_sites) and all(g.dominates(u_sites, i) for i in rids) and all(u in no_reg for u in u_sites) and all(
+        bool([u for u in u_sites if u not in sids]) and g.dominates([u for u in u_sites if u not in sids], i) for sids in need_outer for i in sids)
     esc = None
     for s in succ(g, t.id, dec.no):
-        if s in rids:
+        if s in must_r:
             continue
-        esc = esc or g.path(s, [g.exit, *heads], avoid=rids)
+        esc = esc or g.path(s, [g.exit, *heads], avoid=must_r)
     ctx.ob("R5", "a job that is rolled back is counted/claimed first and then bound to the new recovery workflow, on every path",
            ok_val and ok_branch and ok_order and esc is None, func=f, node=(recs[0].ast if recs else t.ast), instance="handover:record",
            message=f"rollback branch: records the new workflow={ok_val}, only in the rollback branch={ok_branch}, after `await _update_request`={ok_order}, on every path={esc is None}",
            witness=g.describe(esc or []))
+    # a function the rollback branch delegates to acts under the locks as long as nobody else calls it
+    delegates = [q for q in delegates if all(h2.qualname == f.qualname or h2.qualname in delegates for h2, _c in callers_of(p, [q]))]
     # _update_request claims the job (ROLLBACK) after counting
     u = p.func(f"{RFM}._update_request")
     gu = u.cfg
@@ -712,16 +816,22 @@ def r5(ctx):
             is_req = True
         if not is_req:
             continue
-        ctx.ob("R5", "RecoveryRequest.workflow is written only by __init__ and (under the locks) by _synchronize_workflows", h.qualname in (init.qualname, f.qualname),
+        ctx.ob("R5", "RecoveryRequest.workflow is written only by __init__ and (under the locks) by _synchronize_workflows", h.qualname in (init.qualname, f.qualname, *delegates),
                func=h, node=n, instance=f"workflow-write:{h.qualname}", message=f"{h.qualname} rebinds a request's workflow outside the lock-protected synchronisation")
     ctx.ob("R5", "RecoveryRequest.workflow is initialised by __init__", any(h_ is init for h_, n_, r_, k_ in attr_writes(p, "workflow") if k_ == "assign"),
            func=init, node=init.node, instance="workflow-init", message="RecoveryRequest.__init__ does not initialise `workflow` (a __slots__ attribute): the recovering branch fails with AttributeError")
     # _update_request / _synchronize_workflows are only entered under the locks
     for callee, owner in ((f"{RFM}._update_request", f.qualname), (f"{RFM}._synchronize_workflows", f"{RFM}._recover")):
         sites = callers_of(p, [callee])
+        if not sites and callee.endswith("._update_request"):
+            # the function exists but the rollback branch no longer counts / claims the job: a violation, not a vanished anchor
+            ctx.ob("R5", "_update_request is called from _synchronize_workflows (under the request locks)", False, func=f, node=t.ast, instance="caller:_update_request:none",
+                   message="nobody calls _update_request: a rolled-back job is neither counted against the retry limit nor marked ROLLBACK")
+            continue
         ctx.require(bool(sites), f"C19.R5: {callee} is never called")
         for h, c in sites:
-            ctx.ob("R5", f"{callee.rpartition('.')[2]} is called only from {owner.rpartition('.')[2]} (under the request locks)", h.qualname == owner, func=h, node=c,
+            ctx.ob("R5", f"{callee.rpartition('.')[2]} is called only from {owner.rpartition('.')[2]} (under the request locks)",
+                   h.qualname == owner or (owner == f.qualname and h.qualname in delegates), func=h, node=c,
                    instance=f"caller:{callee.rpartition('.')[2]}:{h.qualname}", message=f"{h.qualname} calls {callee.rpartition('.')[2]} outside the lock-protected path")
 
 
@@ -823,6 +933,21 @@ _SNAP_CALL = _SYNC_CALL.replace("workflow=new_workflow)", "workflow=new_workflow
 _SNAP_SET = "recovering = {request.name for request in retry_requests if await self.is_recovering(request.name)}\n"
 _SNAP_LOOP = ("recovering = set()\n        for rq in retry_requests:\n            if not await self.is_recovering(rq.name):\n                continue\n"
               "            recovering.add(rq.name)\n")
+
+# ---- refactoring B20-3: the recovering branch of _synchronize_workflows split off into a method of its own
+_YES_BODY = _SYNC_TO_RECOVER[:_SYNC_TO_RECOVER.index("            else:\n")]
+_ELSE_BODY = _SYNC_TO_RECOVER[_SYNC_TO_RECOVER.index("            else:\n"):_SYNC_TO_RECOVER.index("\n    async def _recover(")]
+_ATTACH_CALL = "                self._attach_to_running_job(failed_job=failed_job, job_tokens=job_tokens, mapper=mapper, retry_request=retry_request, workflow=workflow)\n"
+_ATTACH_DEF = ("\n    def _attach_to_running_job(self, failed_job: str, job_tokens: MutableSequence[Token], mapper: GraphMapper, retry_request: RecoveryRequest, workflow: Workflow) -> None:\n"
+               "        job_name = retry_request.name\n" + "".join(ln[8:] + "\n" for ln in _YES_BODY.splitlines()))
+_ATTACH_FN_CALL = "                _attach(job_name, job_tokens, mapper, retry_request.workflow, workflow)\n"
+_ATTACH_FN = ("def _attach(job_name: str, job_tokens, mapper: GraphMapper, running: Workflow, target: Workflow) -> None:\n"
+              + "".join(ln[12:] + "\n" for ln in _YES_BODY.splitlines() if "logger" not in ln).replace("retry_request.workflow", "running").replace(", workflow)", ", target)"))
+
+_ELSE_TAIL = "                await self._update_request(job_name)\n                retry_request.workflow = workflow\n"
+_ROLLBACK_CALL = "                await self._rollback_request(job_name, retry_request, workflow)\n"
+_ROLLBACK_DEF = ("\n    async def _rollback_request(self, job_name: str, request: RecoveryRequest, new_workflow: Workflow) -> None:\n"
+                 "        await self._update_request(job_name)\n        request.workflow = new_workflow\n")
 
 VARIANTS = [
     # ---- R7 (seeded change C19/1): the is_recovering answer is obtained under the request locks
@@ -935,4 +1060,34 @@ VARIANTS = [
       "    if (request := self._retry_requests.get(job_name)) is None:\n        request = RecoveryRequest(job_name)\n        self._retry_requests[job_name] = request\n"
       "        request = RecoveryRequest(job_name)\n    return request", "R3"),
     V("status set as a frozenset literal order", FM_FILE, f"{RFM}.is_recovering", "(Status.ROLLBACK, Status.RUNNING, Status.FIREABLE)", "[Status.FIREABLE, Status.ROLLBACK, Status.RUNNING]", None),
+    # ---- refactoring B20-3 (benign) and its breaking counterparts
+    V("recovering branch split off into a method (request and new workflow passed as parameters)", FM_FILE, RFM, _YES_BODY + _ELSE_BODY,
+      _ATTACH_CALL + _ELSE_BODY + _ATTACH_DEF, None),
+    V("recovering branch split off into a module-level function taking the running workflow", FM_FILE, RFM, _YES_BODY, _ATTACH_FN_CALL, None, append=_ATTACH_FN),
+    V("split-off hand-over installs the rule on the new workflow", FM_FILE, RFM, _YES_BODY + _ELSE_BODY,
+      _ATTACH_CALL + _ELSE_BODY + _ATTACH_DEF.replace("cast(InterWorkflowPort, retry_request.workflow.ports[new_port.name])", "cast(InterWorkflowPort, workflow.ports[new_port.name])"), "R5"),
+    V("split-off hand-over is given the running workflow as the new one", FM_FILE, RFM, _YES_BODY + _ELSE_BODY,
+      _ATTACH_CALL.replace("workflow=workflow)", "workflow=retry_request.workflow)") + _ELSE_BODY + _ATTACH_DEF, "R5"),
+    V("split-off hand-over no longer promotes the outputs to roots", FM_FILE, RFM, _YES_BODY + _ELSE_BODY,
+      _ATTACH_CALL + _ELSE_BODY + _ATTACH_DEF.replace("            mapper.move_token_to_root(token_id)\n", ""), "R5"),
+    V("split-off hand-over rebinds its request parameter", FM_FILE, RFM, _YES_BODY + _ELSE_BODY,
+      _ATTACH_CALL + _ELSE_BODY + _ATTACH_DEF.replace("        job_name = retry_request.name\n", "        retry_request = self.get_request(failed_job)\n        job_name = retry_request.name\n"), "R5"),
+    V("module-level hand-over receives the workflows in the wrong order", FM_FILE, RFM, _YES_BODY,
+      _ATTACH_FN_CALL.replace("retry_request.workflow, workflow)", "workflow, retry_request.workflow)"), "R5", append=_ATTACH_FN),
+    V("split-off hand-over is invoked in the rollback branch", FM_FILE, RFM, _YES_BODY + _ELSE_BODY,
+      "                pass\n" + _ELSE_BODY.replace("                await self._update_request(job_name)\n", "                await self._update_request(job_name)\n" + _ATTACH_CALL) + _ATTACH_DEF, "R5"),
+    # ---- the rollback branch split off into a method (same class of refactoring as B20-3)
+    V("rollback branch split off into a method (update, then record)", FM_FILE, RFM, _ELSE_TAIL, _ROLLBACK_CALL + _ROLLBACK_DEF, None),
+    V("split-off rollback records the workflow before the request is updated", FM_FILE, RFM, _ELSE_TAIL,
+      _ROLLBACK_CALL + _ROLLBACK_DEF.replace("        await self._update_request(job_name)\n        request.workflow = new_workflow\n",
+                                             "        request.workflow = new_workflow\n        await self._update_request(job_name)\n"), "R5"),
+    V("split-off rollback records the workflow only when debugging", FM_FILE, RFM, _ELSE_TAIL,
+      _ROLLBACK_CALL + _ROLLBACK_DEF.replace("        request.workflow = new_workflow\n", "        if logger.isEnabledFor(logging.DEBUG):\n            request.workflow = new_workflow\n"), "R5"),
+    V("split-off rollback is given the request's old workflow", FM_FILE, RFM, _ELSE_TAIL,
+      _ROLLBACK_CALL.replace("retry_request, workflow)", "retry_request, retry_request.workflow)") + _ROLLBACK_DEF, "R5"),
+    V("split-off rollback no longer counts the request", FM_FILE, RFM, _ELSE_TAIL,
+      _ROLLBACK_CALL + _ROLLBACK_DEF.replace("        await self._update_request(job_name)\n", ""), "R5"),
+    V("split-off rollback is also invoked outside the locks", FM_FILE, RFM, _ELSE_TAIL, _ROLLBACK_CALL + _ROLLBACK_DEF, "R5",
+      append="async def _force_rollback(fm: RollbackFailureManager, job: Job, step: Step) -> None:\n"
+             "    await fm._rollback_request(job.name, fm.get_request(job.name), step.workflow)\n"),
 ]
